@@ -71,6 +71,9 @@ def _gen_worker(key, in_child=False):
     except ContractDrift as e:
         return dict(key=key, status="contract-drift", error=str(e))
     except Exception as e:  # engine crash
+        if isinstance(e, TypeError) and str(e).startswith(("cannot view", "no term for", "no value from term", "cannot create fresh value", "cannot havoc")):
+            # a value of another sort than the contract declares (changed code): the contract no longer binds -- not a checker crash
+            return dict(key=key, status="contract-drift", error=f"sort mismatch between the code and the declared types: {e}")
         if isinstance(e, MemoryError) or "out of memory" in str(e).lower():
             return dict(key=key, status="out-of-subset", error=f"VC generation exceeded its memory limit ({type(e).__name__}); undecided, not a verdict")
         return dict(key=key, status="crash", error=f"{type(e).__name__}: {e}", tb=traceback.format_exc())
